@@ -474,6 +474,102 @@ CHUNKS_OF = {"AudioIO_coarseq_nowait.cfg": (2, 1), "AudioIO_coarseq_wait.cfg": (
 
 
 # ==================================================================================================
+# growth beyond C17: the recording side (spec/io/RecStream.tla), single-threaded, full graph + transition cover
+# ==================================================================================================
+def run_rec(h, ops, cs=2):
+    """Execute record / read / stop / close calls on the real AudioIO over the fake backend (one thread)."""
+    out = []
+    state = {}
+
+    def main():
+        io = h.mod.AudioIO()
+        state["io"] = io
+        recs = []
+        for op in ops:
+            try:
+                if op[0] == "record":
+                    recs.append(io.record(chunk_size=cs))
+                    ret = "ok"
+                elif op[0] == "read":
+                    v = next(iter(recs[op[1] - 1]))
+                    ret = int(v) if float(v).is_integer() else "bad-sample"
+                elif op[0] == "stop":
+                    recs[op[1] - 1].stop()
+                    ret = "ok"
+                else:
+                    io.close()
+                    ret = "ok"
+            except StopIteration:
+                ret = "StopIteration"
+            except schedmod.SchedAbort:
+                raise
+            except Exception as ex:
+                ret = "exc:" + type(ex).__name__
+            b = h.backend_ref[0]
+            out.append((ret, {"flag": [bool(r.recording) for r in recs], "regs": len(io._recordings),
+                              "dev": [st.reads for st in b.streams], "closes": [st.nclose for st in b.streams],
+                              "term": b.terminated, "fin": bool(io.finished)}))
+    # single-threaded: the calls run in this very thread (shim locks do not park an unmanaged thread), under a
+    # SIGALRM watchdog so that a call that never returns is an observation, not a hung check
+    import signal
+
+    class Hang(Exception):
+        pass
+
+    def alarm(signum, frame):
+        raise Hang()
+    h.new_run(lambda sc, en: en[0], max_steps=5000)
+    signal.signal(signal.SIGALRM, alarm)
+    signal.setitimer(signal.ITIMER_REAL, 3.0)
+    res = "done"
+    try:
+        main()
+    except Hang:
+        res = "hang"
+        out.append(("hang", {}))
+    finally:
+        signal.setitimer(signal.ITIMER_REAL, 0)
+        if state.get("io") is not None:
+            state["io"].finished = True
+            state["io"]._recordings = []
+    return res, out
+
+
+def rec_replay(ctx, h):
+    import graphcover
+    d = tlc.scratch_dir("c17r")
+    dot = os.path.join(d, "g.dot")
+    r = tlc.require_ok(tlc.run("RecStream", "RecStream.cfg", dump_dot=dot),
+                       "RecStream", need_actions=("Record", "Read", "Stop", "Close"))
+    ctx.add_tlc(r, "RecStream: recording generator / stop / close, full reachable graph")
+    nodes, inits, edges = tlaval.read_dot(dot)
+    parent, order, out = graphcover.cover(inits, edges)
+    labels = [tlaval.parse_label(e[2]) for e in edges]
+
+    def op_of(lab):
+        name, args = lab
+        return (name.lower(),) + tuple(args)
+    nbad = 0
+    for ei, (src, dst, lab) in enumerate(edges):
+        path = graphcover.path_to(parent, src) + [ei]
+        ops = [op_of(labels[i]) for i in path]
+        res, obs = run_rec(h, ops)
+        st = nodes[dst]
+        n = sum(1 for x in st["st"] if x != "none")
+        want = {"flag": list(st["flag"][:n]), "regs": len(st["regs"]), "dev": list(st["dev"][:n]),
+                "closes": list(st["closes"][:n]), "term": st["term"], "fin": st["fin"]}
+        ctx.count(1, nontrivial_key=("rec", ei) if len(ops) >= 3 else None)
+        ok = res == "done" and len(obs) == len(ops) and obs[-1][0] == st["ret"] and obs[-1][1] == want
+        if not ok:
+            nbad += 1
+            ctx.violation("C17:rec:%s" % ops[-1][0], {"calls": ops, "result": res, "expected_return": st["ret"],
+                                                      "expected_state": want, "observed": obs[-1] if obs else None})
+    ctx.traces += len(edges)
+    ctx.log("recording side: %d states, %d transitions replayed on the real AudioIO.record/RecStream, %d differ"
+            % (len(nodes), len(edges), nbad))
+
+
+# ==================================================================================================
 def check(ctx):
     common.import_audiolazy()
     h = schedmod.Harness(common.REPO)
@@ -493,6 +589,7 @@ def check(ctx):
     nrand = 300 if not ctx.thorough else 4000
     m3(ctx, h, nrand)
     m3_fine(ctx, h, 30 if not ctx.thorough else 600)
+    rec_replay(ctx, h)
 
 
 CONFIGS = [(3,), (2, 1), (0, 2), (2, 2), (1, 2, 1), (3, 0, 2)]
